@@ -643,11 +643,27 @@ def rewrite_R4(toks, log, unit_name):
                         j = c + 1
                         log.append("R4 map_assign_into line %d" % t.line)
                         break
+                    if len(s2) >= 3 and toks[s2[0]].text == "." and toks[s2[1]].text == "fold_while" and toks[s2[2]].text == "(":
+                        # R12: Zip::from(A.axis_iter[_mut](AX)).and(..).fold_while(INIT, |ACC, p..| BODY).into_inner()
+                        c = match_close(toks, s2[2])
+                        s4 = [c + 1 + x for x in _sigidx(toks[c + 1:c + 9])]
+                        if not (len(s4) >= 4 and toks[s4[0]].text == "." and toks[s4[1]].text == "into_inner"
+                                and toks[s4[2]].text == "(" and toks[s4[3]].text == ")"):
+                            raise Undecided("R12: fold_while without .into_inner() in %s at line %d" % (unit_name, t.line))
+                        out.extend(_emit_zipfold(args, toks[s2[2] + 1:c], t.line, nzip, unit_name, log))
+                        log.append("R12 fold_while line %d (%d producers)" % (t.line, len(args)))
+                        body = "FOLD"
+                        j = s4[3] + 1
+                        break
                     raise Undecided("R4: unsupported Zip chain in %s at line %d (only .and(..)*.for_each(..))" % (unit_name, t.line))
                 # optional trailing `;`
                 s3 = [j + x for x in _sigidx(toks[j:j + 3])]
-                if s3 and toks[s3[0]].text == ";":
+                if body != "FOLD" and s3 and toks[s3[0]].text == ";":
                     j = s3[0] + 1
+                if body == "FOLD":
+                    nzip += 1
+                    k = j
+                    continue
                 out.extend(_emit_zip(args, body, t.line, nzip, unit_name))
                 nl = text_of(toks[k:j]).count("\n")
                 log.append("R4 line %d (%d producers)" % (t.line, len(args)))
@@ -657,6 +673,124 @@ def rewrite_R4(toks, log, unit_name):
         out.append(t)
         k += 1
     return out
+
+
+def _split_top_toks(toks):
+    """split a token list at top-level commas"""
+    parts, cur, depth = [], [], 0
+    for tk in toks:
+        tx = tk.text if tk.kind == "punct" else ""
+        if tx in ("(", "[", "{"):
+            depth += 1
+        elif tx in (")", "]", "}"):
+            depth -= 1
+        if tx == "," and depth == 0:
+            parts.append(cur); cur = []
+        else:
+            cur.append(tk)
+    if [x for x in cur if x.kind not in ("ws", "comment")]:
+        parts.append(cur)
+    return parts
+
+
+def _closure_parts(toks, what, line):
+    """|params| BODY  ->  ([param texts], body tokens)"""
+    sc = _sigidx(toks)
+    if not sc or toks[sc[0]].text != "|":
+        raise Undecided("%s: argument is not a closure (line %d)" % (what, line))
+    q = sc[0] + 1
+    while toks[q].text != "|":
+        q += 1
+    params = [norm(p) for p in split_top(text_of(toks[sc[0] + 1:q]))]
+    return params, toks[q + 1:]
+
+
+def _rewrite_R13(body, line, log):
+    """R13: RECV.map_or_else(|P| A, |Q| B)  ->  match RECV { Err(P) => A, Ok(Q) => B }   (RECV = the whole prefix of the closure body)"""
+    depth = 0
+    sig = [q for q, tk in enumerate(body) if tk.kind not in ("ws", "comment")]
+    # a body that is one block `{ EXPR }` is read as EXPR
+    while sig and body[sig[0]].text == "{" and match_close(body, sig[0]) == sig[-1]:
+        body = body[sig[0] + 1:sig[-1]]
+        sig = [q for q, tk in enumerate(body) if tk.kind not in ("ws", "comment")]
+    for a, q in enumerate(sig):
+        tk = body[q]
+        tx = tk.text if tk.kind == "punct" else ""
+        if tx in ("(", "[", "{"):
+            depth += 1
+        elif tx in (")", "]", "}"):
+            depth -= 1
+        elif (depth == 0 and tx == "." and a + 2 < len(sig) and body[sig[a + 1]].text == "map_or_else"
+              and body[sig[a + 2]].text == "("):
+            c = match_close(body, sig[a + 2])
+            if [x for x in body[c + 1:] if x.kind not in ("ws", "comment")]:
+                raise Undecided("R13: map_or_else is not the last call of the closure body (line %d)" % line)
+            parts = _split_top_toks(body[sig[a + 2] + 1:c])
+            if len(parts) != 2:
+                raise Undecided("R13: map_or_else with %d arguments (only one-parameter closures are read) (line %d)" % (len(parts), line))
+            pe, be = _closure_parts(parts[0], "R13", line)
+            po, bo = _closure_parts(parts[1], "R13", line)
+            if len(pe) != 1 or len(po) != 1:
+                raise Undecided("R13: closure arity (line %d)" % line)
+            log.append("R13 map_or_else line %d" % line)
+            return "match %s { Err(%s) => %s, Ok(%s) => %s }" % (text_of(body[:q]).strip(), pe[0], text_of(be).strip(), po[0], text_of(bo).strip())
+    return text_of(body).strip()
+
+
+def _emit_zipfold(args, inner, line, nzip, unit_name, log):
+    """R12: the sequential early-exit fold of ndarray's Zip::fold_while over axis iterators as a while loop:
+    item i of `X.axis_iter[_mut](AX)` is `X.axis_item[_mut](AX, i)`; FoldWhile::Done stops the loop, the accumulator is the value"""
+    parts = _split_top_toks(inner)
+    if len(parts) < 2:
+        raise Undecided("R12: fold_while with %d arguments in %s (line %d)" % (len(parts), unit_name, line))
+    init = text_of(parts[0]).strip()
+    # everything after the first top-level comma is the closure (its parameter list contains commas)
+    cut = len(parts[0])
+    params, cbody = _closure_parts(inner[cut + 1:], "R12", line)
+    if len(params) != len(args) + 1:
+        raise Undecided("R12: %d closure parameters for %d producers (line %d)" % (len(params), len(args), line))
+    for p_ in params:
+        if not re.match(r"^[A-Za-z_][A-Za-z0-9_]*$", p_):
+            raise Undecided("R12: unsupported closure pattern %r (line %d)" % (p_, line))
+    recv, meth, axes = [], [], []
+    for a in args:
+        m = re.match(r"^([A-Za-z_][A-Za-z0-9_]*)\.(axis_iter_mut|axis_iter)\((.*)\)$", norm(text_of(a)))
+        if not m:
+            raise Undecided("R12: producer %r is not IDENT.axis_iter[_mut](AX) (line %d)" % (norm(text_of(a)), line))
+        recv.append(m.group(1)); meth.append(m.group(2)); axes.append(m.group(3))
+    if len(set(axes)) != 1:
+        raise Undecided("R12: producers iterate different axes (line %d)" % line)
+    ax = axes[0]
+    z = "zip%d" % nzip
+    # the closure parameters are alpha-renamed to fresh names (zipK_pI) so that the items stay nameable after the call
+    fresh = {p_: "%s_p%d" % (z, idx) for idx, p_ in enumerate(params[1:]) if p_ != "_"}
+    rb, prev = [], None
+    for tk in cbody:
+        if tk.kind == "ident" and tk.text in fresh and not (prev is not None and prev.kind == "punct" and prev.text in (".", "::")):
+            rb.append(Tok("ident", fresh[tk.text], tk.line))
+        else:
+            rb.append(tk)
+        if tk.kind not in ("ws", "comment"):
+            prev = tk
+    btxt = _rewrite_R13(rb, line, log)
+    txt = ["{"]
+    txt.append("zipfold_check%d(%s, %s);" % (len(args), ", ".join("&*" + r if mt == "axis_iter_mut" else "&" + r for r, mt in zip(recv, meth)), ax))
+    txt.append("let %s_n = %s.len_of(%s); let mut %s_i: usize = 0; let mut %s_acc = %s; let mut %s_go = true;" % (z, recv[0], ax, z, z, init, z))
+    txt.append("while %s_go && %s_i < %s_n" % (z, z, z))
+    txt.append("/*@ZIPLOOP@*/{")
+    if params[0] != "_":
+        txt.append("let %s = %s_acc;" % (params[0], z))
+    for idx, (r, mt) in enumerate(zip(recv, meth)):
+        txt.append("let %s_p%d = %s.%s(%s, %s_i);" % (z, idx, r, "axis_item_mut" if mt == "axis_iter_mut" else "axis_item", ax, z))
+    txt.append("let %s_r = %s;" % (z, btxt))
+    txt.append("match %s_r { FoldWhile::Continue(%s_v) => { %s_acc = %s_v; } FoldWhile::Done(%s_v) => { %s_acc = %s_v; %s_go = false; } }" % (z, z, z, z, z, z, z, z))
+    txt.append("%s_i += 1;" % z)
+    txt.append("}")
+    txt.append("%s_acc" % z)
+    txt.append("}")
+    from rustlex import lex as _lex
+    toks = _lex("\n".join(txt) + "\n")
+    return [Tok(t.kind, t.text, line) for t in toks]
 
 
 def _emit_zip(args, body, line, nzip, unit_name):
@@ -1104,13 +1238,20 @@ def emit_unit(em, repo, u, type_table, log, assumed=False):
             n_closures += 1
         prev_sig = tk
     body = splice(body, u, name)
+    # head option `tail: NAME`: the body's value is bound to NAME so that `proof at-end` can speak about it (`let NAME = { BODY }; proof {..} NAME`)
+    if h.get("tail"):
+        em.add("    let %s = {" % h["tail"], kind="meta", unit=name)
     em.add_tokens_with_marks(body, name, h["file"]) if hasattr(em, "add_tokens_with_marks") else _emit_body(em, body, name, h["file"], u)
+    if h.get("tail"):
+        em.add("    };", kind="meta", unit=name)
     for s in u["sections"]:
         if s["label"].startswith("proof at-end"):
             em.add("    proof {", kind="meta", unit=name)
             for off, ln in enumerate(s["lines"]):
                 em.add("        " + ln, kind="proof", unit=name, label="at-end", ufile=u["path"], uline=s["line0"] + off)
             em.add("    }", kind="meta", unit=name)
+    if h.get("tail"):
+        em.add("    " + h["tail"], kind="meta", unit=name)
     em.add("}", kind="meta", unit=name)
     # ---- vacuity canary: same parameters and preconditions, `ensures false` — must NOT verify
     has_canary = False
